@@ -31,11 +31,21 @@ type c02Snapshot struct {
 const c02SnapSeed = 20260926
 
 func c02SnapshotScenario() (*Env, *c17Data, []sdk.AccAddress, sdk.AccAddress, error) {
+	return c02SnapshotScenarioWith(0)
+}
+
+// chunk > 0: the chain runs with that chunk size (set the governance way) before anything is stored
+func c02SnapshotScenarioWith(chunk int64) (*Env, *c17Data, []sdk.AccAddress, sdk.AccAddress, error) {
 	e, err := NewEnv()
 	if err != nil {
 		return nil, nil, nil, nil, err
 	}
 	e.NoGhost = true
+	if chunk > 0 {
+		sp := StorageParams(e)
+		sp.ChunkSize = chunk
+		GovSetStorageParams(e, sp)
+	}
 	owner := Acct(1)
 	provers := []sdk.AccAddress{Acct(11), Acct(12)}
 	_ = e.Fund(owner, "ujkl", 50_000_000_000)
@@ -46,13 +56,8 @@ func c02SnapshotScenario() (*Env, *c17Data, []sdk.AccAddress, sdk.AccAddress, er
 	return e, d, provers, owner, nil
 }
 
-// c02MakeSnapshot runs the scenario on the tree the harness was built against and prints the snapshot.
-func c02MakeSnapshotTo(path string) error {
-	e, d, provers, owner, err := c02SnapshotScenario()
-	if err != nil {
-		return err
-	}
-	defer e.Close()
+// c02ScenarioSteps: a plan, two providers, the file posted at 90, both provers prove at 101 and 160.
+func c02ScenarioSteps(e *Env, d *c17Data, provers []sdk.AccAddress, owner sdk.AccAddress) error {
 	step := func(h int64, m sdk.Msg) error {
 		e.At(h, T0.Add(timeOf(h)))
 		if res := e.Run(m); res.Out != OutOk {
@@ -87,6 +92,19 @@ func c02MakeSnapshotTo(path string) error {
 			}
 		}
 	}
+	return nil
+}
+
+// c02MakeSnapshot runs the scenario on the tree the harness was built against and prints the snapshot.
+func c02MakeSnapshotTo(path string) error {
+	e, d, provers, owner, err := c02SnapshotScenario()
+	if err != nil {
+		return err
+	}
+	defer e.Close()
+	if err := c02ScenarioSteps(e, d, provers, owner); err != nil {
+		return err
+	}
 	snap := c02Snapshot{What: "raw storage store after: plan, two providers, a 6-chunk file posted at 90, both provers proved at 101 and 160", Height: 160, Seed: c02SnapSeed, NChunks: 6}
 	for _, kv := range mustDump(e, storagetypes.StoreKey) {
 		snap.KV = append(snap.KV, [2]string{hex.EncodeToString(kv.K), hex.EncodeToString(kv.V)})
@@ -96,6 +114,23 @@ func c02MakeSnapshotTo(path string) error {
 }
 
 func c02PersistedTwin(r *RunCtx) error {
+	if err := persistedStorageTwinAs(r, "C02"); err != nil {
+		return err
+	}
+	return storageTwin(r, "C02", true)
+}
+
+// persistedStorageTwinAs: the twin under the signature of the property that runs it.  For C03 it also judges the
+// reward blocks of the new binary: each prover is listed once on the file, and the two provers of the one file
+// (equal sizes, both proved every window) are paid the same, out of what the gauges released.
+func persistedStorageTwinAs(r *RunCtx, sig string) error { return storageTwin(r, sig, false) }
+
+// storageTwin, remigrate = false: the store of the earlier release, migrated from the recorded versions.
+// remigrate = true: the upgrade that brought the chain to its current version, replayed: a chain that runs with a
+// chunk size of its own (2048; the main net changed its chunk size by governance too) stores the same scenario with
+// the binary under test, then the storage module's last in-place migration runs (from its consensus version - 1)
+// and the provers go on: what the chain had configured and stored is what they keep proving against.
+func storageTwin(r *RunCtx, sig string, remigrate bool) error {
 	raw, err := os.ReadFile(filepath.Join(c19VerifRoot(), "corpus", "C02", "persisted_storage.json"))
 	if err != nil {
 		return fmt.Errorf("C02: persisted state: %w", err)
@@ -104,7 +139,11 @@ func c02PersistedTwin(r *RunCtx) error {
 	if err := json.Unmarshal(raw, &snap); err != nil {
 		return err
 	}
-	e, d, provers, owner, err := c02SnapshotScenario()
+	chunk := int64(0)
+	if remigrate {
+		chunk = 2048
+	}
+	e, d, provers, owner, err := c02SnapshotScenarioWith(chunk)
 	if err != nil {
 		if strings.Contains(err.Error(), "tree root differs") {
 			// utils.BuildTree no longer builds the tree the verifier walks: the function-level part of this check judges that
@@ -115,22 +154,30 @@ func c02PersistedTwin(r *RunCtx) error {
 	}
 	defer e.Close()
 	e.NoGhost = false
-	// the bytes the earlier release wrote
-	st := e.Ctx.KVStore(c19StoreKey(e, storagetypes.StoreKey))
-	for _, kv := range mustDump(e, storagetypes.StoreKey) {
-		st.Delete(kv.K)
-	}
-	for _, kv := range snap.KV {
-		k, _ := hex.DecodeString(kv[0])
-		v, _ := hex.DecodeString(kv[1])
-		st.Set(k, v)
-	}
-	trace := []interface{}{map[string]interface{}{"op": "load the storage store written by the earlier release", "records": len(snap.KV), "height": snap.Height}}
-	// gauges refer to escrow accounts of the bank: give each what its record says it was given
-	for _, g := range e.App.StorageKeeper.GetAllPaymentGauges(e.Ctx) {
-		if acct, err := storagetypes.GetGaugeAccount(g); err == nil {
-			for _, c := range g.Coins {
-				_ = e.Fund(acct, c.Denom, c.Amount.Int64())
+	var trace []interface{}
+	if remigrate {
+		if err := c02ScenarioSteps(e, d, provers, owner); err != nil {
+			return err
+		}
+		trace = []interface{}{map[string]interface{}{"op": "a chain with ChunkSize 2048: plan, two providers, a 6-chunk file posted at 90, both provers proved at 101 and 160", "height": snap.Height}}
+	} else {
+		// the bytes the earlier release wrote
+		st := e.Ctx.KVStore(c19StoreKey(e, storagetypes.StoreKey))
+		for _, kv := range mustDump(e, storagetypes.StoreKey) {
+			st.Delete(kv.K)
+		}
+		for _, kv := range snap.KV {
+			k, _ := hex.DecodeString(kv[0])
+			v, _ := hex.DecodeString(kv[1])
+			st.Set(k, v)
+		}
+		trace = []interface{}{map[string]interface{}{"op": "load the storage store written by the earlier release", "records": len(snap.KV), "height": snap.Height}}
+		// gauges refer to escrow accounts of the bank: give each what its record says it was given
+		for _, g := range e.App.StorageKeeper.GetAllPaymentGauges(e.Ctx) {
+			if acct, err := storagetypes.GetGaugeAccount(g); err == nil {
+				for _, c := range g.Coins {
+					_ = e.Fund(acct, c.Denom, c.Amount.Int64())
+				}
 			}
 		}
 	}
@@ -151,10 +198,16 @@ func c02PersistedTwin(r *RunCtx) error {
 			from[name] = rv
 		}
 	}
+	if remigrate {
+		if v := from[storagetypes.ModuleName]; v > 1 {
+			from[storagetypes.ModuleName] = v - 1
+			trace = append(trace, map[string]interface{}{"op": "upgrade: RunMigrations", "storage_from_version": v - 1, "storage_to_version": v})
+		}
+	}
 	e.At(snap.Height+5, T0.Add(timeOf(snap.Height+5)))
 	var merr error
 	if pn := Guard(func() { _, merr = mm.RunMigrations(e.Ctx, cfg, from) }); pn != "" || merr != nil {
-		r.Finding("C02/persisted/migration-failed", fmt.Sprintf("the migrations from the recorded versions fail on the persisted state: %s %v", pn, merr), map[string]interface{}{"trace": trace})
+		r.Finding(sig+"/persisted/migration-failed", fmt.Sprintf("the migrations from the recorded versions fail on the persisted state: %s %v", pn, merr), map[string]interface{}{"trace": trace})
 		return nil
 	}
 	k := e.App.StorageKeeper
@@ -165,6 +218,10 @@ func c02PersistedTwin(r *RunCtx) error {
 	burn0 := map[string]string{}
 	for _, pv := range provers {
 		burn0[pv.String()] = burned(pv)
+	}
+	bal0 := map[string]int64{}
+	for _, pv := range provers {
+		bal0[pv.String()] = e.Bal(pv, "ujkl")
 	}
 	bad := func(sig, what string) { r.Finding(sig, what, map[string]interface{}{"trace": trace}) }
 	listed := func(pv sdk.AccAddress) bool {
@@ -178,18 +235,42 @@ func c02PersistedTwin(r *RunCtx) error {
 			pn := Guard(func() { k.RunRewardBlock(e.Ctx) })
 			trace = append(trace, map[string]interface{}{"op": "RunRewardBlock", "height": h, "panic": pn})
 			if pn != "" {
-				bad("C02/persisted/reward-block-panic", "the reward block panicked on the persisted state: "+pn)
+				bad(sig+"/persisted/reward-block-panic", "the reward block panicked on the persisted state: "+pn)
 				return nil
 			}
 			for _, pv := range provers {
 				if !listed(pv) {
-					bad("C02/reward/honest-prover-removed", fmt.Sprintf("%s proved every window (before and after the upgrade) and is no longer listed after reward block %d", pv, h))
+					bad(sig+"/reward/honest-prover-removed", fmt.Sprintf("%s proved every window (before and after the upgrade) and is no longer listed after reward block %d", pv, h))
 					return nil
 				}
 				if b := burned(pv); b != burn0[pv.String()] {
-					bad("C02/reward/honest-prover-burned", fmt.Sprintf("%s proved every window and its burn count went from %s to %s at reward block %d", pv, burn0[pv.String()], b, h))
+					bad(sig+"/reward/honest-prover-burned", fmt.Sprintf("%s proved every window and its burn count went from %s to %s at reward block %d", pv, burn0[pv.String()], b, h))
 					return nil
 				}
+			}
+			if sig == "C03" {
+				f, _ := k.GetFile(e.Ctx, d.Merkle, owner.String(), 90)
+				gains := []int64{}
+				for _, pv := range provers {
+					n := 0
+					for _, pk := range f.Proofs {
+						if strings.HasPrefix(pk, pv.String()+"/") {
+							n++
+						}
+					}
+					if n != 1 {
+						bad("C03/persisted/prover-listed-"+fmt.Sprint(n)+"-times", fmt.Sprintf("%s, registered on the file by the earlier release and proving every window since, is listed %d times on it at reward block %d: it is counted %d times for the file's size", pv, n, h, n))
+						return nil
+					}
+					gains = append(gains, e.Bal(pv, "ujkl")-bal0[pv.String()])
+					bal0[pv.String()] = e.Bal(pv, "ujkl")
+				}
+				if d := gains[0] - gains[1]; d > 1 || d < -1 {
+					bad("C03/persisted/unequal-shares", fmt.Sprintf("the two provers of the one file (both proved every window) were paid %d and %d at reward block %d", gains[0], gains[1], h))
+					return nil
+				}
+				r.Count(fmt.Sprintf("persisted:payout:%d:%d", h, gains[0]), gains[0] > 0)
+				r.Hist("persisted-payout", fmt.Sprintf("reward block %d paid %d and %d", h, gains[0], gains[1]))
 			}
 			r.Count(fmt.Sprintf("persisted:reward:%d", h), true)
 			continue
@@ -197,7 +278,11 @@ func c02PersistedTwin(r *RunCtx) error {
 		for _, pv := range provers {
 			rec, ok := k.GetProof(e.Ctx, pv.String(), d.Merkle, owner.String(), 90)
 			if !ok {
-				bad("C02/persisted/proof-record-unreachable", fmt.Sprintf("the proof record of %s written by the earlier release is not found by the keeper: the prover cannot learn its challenge", pv))
+				bad(sig+"/persisted/proof-record-unreachable", fmt.Sprintf("the proof record of %s written by the earlier release is not found by the keeper: the prover cannot learn its challenge", pv))
+				return nil
+			}
+			if rec.ChunkToProve < 0 || rec.ChunkToProve >= int64(len(d.Leaves)) {
+				bad(sig+"/challenge/out-of-range", fmt.Sprintf("the chain challenges %s with chunk %d of a file of %d chunks (%d bytes, stored under the chunk size the chain had configured)", pv, rec.ChunkToProve, len(d.Leaves), d.Size))
 				return nil
 			}
 			item, pj, _, err := d.honest(int(rec.ChunkToProve))
@@ -212,12 +297,12 @@ func c02PersistedTwin(r *RunCtx) error {
 			trace = append(trace, map[string]interface{}{"op": "PostProof (honest)", "height": h, "prover": pv.String(), "chunk": rec.ChunkToProve, "out": res.Out, "success": resp.Success, "err": res.Err + resp.ErrorMessage})
 			after, ok2 := k.GetProof(e.Ctx, pv.String(), d.Merkle, owner.String(), 90)
 			if res.Out != OutOk || !resp.Success || !ok2 || after.LastProven != h {
-				bad("C02/postproof/honest-proof-refused", fmt.Sprintf("the honest proof of %s for its stored challenge (chunk %d) at height %d was not accepted and recorded", pv, rec.ChunkToProve, h))
+				bad(sig+"/postproof/honest-proof-refused", fmt.Sprintf("the honest proof of %s for its stored challenge (chunk %d) at height %d was not accepted and recorded", pv, rec.ChunkToProve, h))
 				return nil
 			}
 			r.Count(fmt.Sprintf("persisted:proof:%d:%s", h, pv), true)
 		}
 	}
-	r.Hist("persisted-state", "honest provers kept across the upgrade")
+	r.Hist("persisted-state", map[bool]string{false: "honest provers kept across the upgrade", true: "honest provers kept across the replayed last migration (ChunkSize 2048)"}[remigrate])
 	return nil
 }
